@@ -84,13 +84,14 @@ def _force_rebuild_if_sources_changed(target_dir, cwd, packages, extra_env=None)
     cur = repo_src_hash()
     prev = open(stamp).read().strip() if os.path.exists(stamp) else None
     prev_last = open(last).read().strip() if os.path.exists(last) else None
-    if prev != cur or prev_last != cur:
+    built_before = os.path.isdir(os.path.join(target_dir, "debug"))
+    if (prev != cur or prev_last != cur) and built_before:
         e = cargo_env()
         if extra_env:
             e.update(extra_env)
         for pk in packages:
             # one by one: a package that is not part of this build graph is simply not there to clean
-            pc = subprocess.run(["cargo", "clean", "--offline", "--quiet", "--target-dir", target_dir, "-p", pk], cwd=cwd, env=e,
+            pc = subprocess.run(["cargo", "clean", "--offline", "--target-dir", target_dir, "-p", pk], cwd=cwd, env=e,
                                 stdout=subprocess.PIPE, stderr=subprocess.STDOUT, text=True)
             if pc.returncode != 0 and "did not match any packages" not in pc.stdout:
                 raise ToolError("cargo clean -p %s failed in %s: %s" % (pk, cwd, pc.stdout[-500:]))
@@ -174,7 +175,7 @@ def build_repo_bins(packages):
             cmd += ["-p", p]
         e = cargo_env()
         # the repository is built with the hook guard on, like the harness
-        e["RUSTFLAGS"] = "--cfg %s --check-cfg cfg(%s)" % (GUARD, GUARD)
+        e["RUSTFLAGS"] = ("--cfg %s --check-cfg cfg(%s) " % (GUARD, GUARD) + os.environ.get("VERIF_EXTRA_RUSTFLAGS", "")).strip()
         tok = _force_rebuild_if_sources_changed(tdir, REPO, REPO_PACKAGES, {"RUSTFLAGS": e["RUSTFLAGS"]})
         p = subprocess.run(cmd, cwd=REPO, env=e, stdout=subprocess.PIPE, stderr=subprocess.STDOUT, text=True)
         if p.returncode != 0:
